@@ -8,13 +8,16 @@
    one failed write does not stop later saves; persistent machine variables reload with equal
    values unless their expiry time has passed.
 
-   cfg = (fix_flush, fix_busy).  (true, true) models the tree with fixes/C15-final-flush.patch
-   and fixes/C15-busy-finally.patch (this is what the correspondence run ties to the code);
-   fix_flush = false / fix_busy = false model the code before the respective patch: for those the
-   property is FALSE (the two *_refuted_orig theorems; witnesses replayed on the unpatched code,
-   see NOTES.md). *)
+   cfg = (fix_flush, fix_busy, fix_copy).  (true, true, true) models the tree with
+   fixes/C15-final-flush.patch, fixes/C15-busy-finally.patch and fixes/C15-snapshot-in-try.patch
+   (this is what the correspondence run ties to the code); a component = false models the code before
+   the respective patch: for those the property is FALSE (the three *_refuted_orig theorems; witnesses
+   replayed on the unpatched code, see NOTES.md).
+   Sections: 1-3 one manager; 4 machine variables; 5 direct FileManager.save; 6 two managers sharing
+   FileManager.is_busy (Two.v); 7 crash points at os-call level, 8 power loss (Crash.v); 9 the
+   snapshot under concurrent assignments (Copy.v). *)
 From Common Require Import Prelude.
-From C15 Require Import Model Lemmas.
+From C15 Require Import Model Lemmas Two TwoLemmas TwoLive Crash Copy.
 Open Scope Z_scope.
 
 (* 1. never torn — every cfg, every schedule (saves, shutdown, crashes, I/O errors at any step),
@@ -30,7 +33,7 @@ Print Assumptions disk_never_torn.
 (* os.replace is the only step that changes the data file, and it installs the temp file *)
 Theorem only_replace_writes_file :
   forall c s o, file (step c s o) <> file s ->
-    crashed s = false /\ pc s = PReplace /\ o = Tick /\ file (step c s o) = temp s.
+    crashed s = false /\ pc s = PReplace /\ (o = Tick \/ o = CopyFail) /\ file (step c s o) = temp s.
 Proof. exact only_replace_writes_file_l. Qed.
 Print Assumptions only_replace_writes_file.
 
@@ -50,21 +53,21 @@ Print Assumptions crash_keeps_disk.
       for every history without crash / injected error in which nothing is handed over after the
       shutdown request, once the writer thread has ended the file is the last version saved. *)
 Theorem clean_shutdown_durable :
-  forall (fb ifile : bool) (itemp : Z) (ops : list op) (v : Z),
+  forall (fb fc ifile : bool) (itemp : Z) (ops : list op) (v : Z),
     clean_from false ops = true ->
     last_saved ops = Some v ->
-    pc (run (true, fb) (init ifile itemp) ops) = PDone ->
-    file (run (true, fb) (init ifile itemp) ops) = Some (v, TFull).
+    pc (run (true, fb, fc) (init ifile itemp) ops) = PDone ->
+    file (run (true, fb, fc) (init ifile itemp) ops) = Some (v, TFull).
 Proof. exact clean_shutdown_durable_l. Qed.
 Print Assumptions clean_shutdown_durable.
 
 (* ... and it is FALSE of the code before the patch (flush after the loop is dead code):
    a save during the rate-limit sleep followed by shutdown never reaches the disk *)
 Theorem clean_shutdown_durable_refuted_orig :
-  forall fb, exists ops v,
+  forall fb fc, exists ops v,
     clean_from false ops = true /\ last_saved ops = Some v /\
-    pc (run (false, fb) (init false 0) ops) = PDone /\
-    file (run (false, fb) (init false 0) ops) <> Some (v, TFull).
+    pc (run (false, fb, fc) (init false 0) ops) = PDone /\
+    file (run (false, fb, fc) (init false 0) ops) <> Some (v, TFull).
 Proof. exact clean_shutdown_durable_refuted_l. Qed.
 Print Assumptions clean_shutdown_durable_refuted_orig.
 
@@ -73,27 +76,50 @@ Print Assumptions clean_shutdown_durable_refuted_orig.
       error-free thread steps, the writer is idle again, and it stays that way. *)
 Theorem failed_write_not_sticky :
   forall (ff ifile : bool) (itemp : Z) (ops : list op) (v : Z) (k : nat),
-    let s := run (ff, true) (init ifile itemp) ops in
+    let s := run (ff, true, true) (init ifile itemp) ops in
     crashed s = false -> stopper s = false ->
-    settled v (run (ff, true) s (Save v :: ticks (24 + k))).
+    settled v (run (ff, true, true) s (Save v :: ticks (24 + k))).
 Proof. exact failed_write_not_sticky_l. Qed.
 Print Assumptions failed_write_not_sticky.
 
 Theorem busy_only_while_writing :
   forall (ff ifile : bool) (itemp : Z) (ops : list op),
-    let s := run (ff, true) (init ifile itemp) ops in busy s = io_point (pc s).
+    let s := run (ff, true, true) (init ifile itemp) ops in busy s = io_point (pc s).
 Proof. exact busy_only_while_writing_l. Qed.
 Print Assumptions busy_only_while_writing.
 
 (* ... and it is FALSE of the code before the patch: one I/O error, and no later save is ever
    written, however long the thread runs (is_busy stays True, the thread spins) *)
 Theorem failed_write_not_sticky_refuted_orig :
-  forall ff, exists ops, forall v n,
-    file (run (ff, false) (init false 0) (ops ++ Save v :: ticks n)) = None /\
-    stopper (run (ff, false) (init false 0) (ops ++ Save v :: ticks n)) = false /\
-    crashed (run (ff, false) (init false 0) (ops ++ Save v :: ticks n)) = false.
+  forall ff fc, exists ops, forall v n,
+    file (run (ff, false, fc) (init false 0) (ops ++ Save v :: ticks n)) = None /\
+    stopper (run (ff, false, fc) (init false 0) (ops ++ Save v :: ticks n)) = false /\
+    crashed (run (ff, false, fc) (init false 0) (ops ++ Save v :: ticks n)) = false.
 Proof. exact failed_write_sticky_orig_l. Qed.
 Print Assumptions failed_write_not_sticky_refuted_orig.
+
+(* 3b. a failed SNAPSHOT (copy.deepcopy(self.data) raises because the main thread changed the size of
+      the live dict during the copy; ops [CopyFail]).  failed_write_not_sticky above already covers
+      histories with CopyFail for the code with fixes/C15-snapshot-in-try.patch (fix_copy = true).
+      It is FALSE of the code before the patch: the exception escapes _writing_thread, the writer
+      thread of that manager is dead, no later save is ever written (reproduced on the real code). *)
+Theorem snapshot_failure_not_sticky_refuted_orig :
+  forall ff fb, exists ops, forall v n,
+    file (run (ff, fb, false) (init false 0) (ops ++ Save v :: ticks n)) = None /\
+    stopper (run (ff, fb, false) (init false 0) (ops ++ Save v :: ticks n)) = false /\
+    crashed (run (ff, fb, false) (init false 0) (ops ++ Save v :: ticks n)) = false.
+Proof. exact snapshot_failure_sticky_orig_l. Qed.
+Print Assumptions snapshot_failure_not_sticky_refuted_orig.
+
+(* fixed code: the snapshot that failed is retried by the thread itself (dirty is set again): the data
+   lands within 24 steps without a new save_all *)
+Theorem snapshot_failure_retried :
+  forall (ff ifile : bool) (itemp : Z) (ops : list op) (k : nat),
+    let s := run (ff, true, true) (init ifile itemp) ops in
+    crashed s = false -> stopper s = false -> pc s = PCopy ->
+    settled (data s) (run (ff, true, true) s (CopyFail :: ticks (24 + k))).
+Proof. exact snapshot_failure_retried_l. Qed.
+Print Assumptions snapshot_failure_retried.
 
 (* 4. machine variables.  What load_machine_vars restores from a file: exactly the entries whose
       expiry has not passed, with the stored value. *)
@@ -141,24 +167,176 @@ Theorem persist_reload_refuted :
 Proof. exact persist_reload_refuted_l. Qed.
 Print Assumptions persist_reload_refuted.
 
+(* 4b. load side.  Values are tokens: a token stands for a class of values equal under Python's ==
+      (0 / 0.0 / False; '' ; [] ; {} ; strings, lists, dicts, nested), so the theorems of this section
+      hold for every value type; that the real YAML round trip maps every such value to an equal one is
+      checked on the code (suites vars / writer).  A file that is unusable as a whole boots with no
+      variables; a malformed entry is skipped and does not affect any other entry. *)
+Theorem bad_file_boots_empty :
+  forall t now d, 1 <= t < 10 -> reload now (tampered t d) = [].
+Proof. exact bad_file_boots_empty_l. Qed.
+Print Assumptions bad_file_boots_empty.
+
+Theorem malformed_entry_only_drops_itself :
+  forall n now d m v, In (m, v) (reload now (drop n d)) <-> m <> n /\ In (m, v) (reload now d).
+Proof. exact malformed_entry_only_drops_itself_l. Qed.
+Print Assumptions malformed_entry_only_drops_itself.
+
 (* 5. FileManager.save called directly (tie: suite "fsave", real ruamel dumper, faults injected in
       write() and by unrepresentable values).  A save that raises leaves the data file and the flag
       untouched and the temp file incomplete; whatever failed before, a later good save is on disk. *)
 Theorem direct_good_save_lands :
-  forall ff b v d, let s := direct_save (ff, true) b v d 0 in
+  forall ff b v d, let s := direct_save (ff, true, true) b v d 0 in
     file s = Some (v, TFull) /\ temp s = None /\ busy s = false.
 Proof. exact direct_good_save_lands_l. Qed.
 Print Assumptions direct_good_save_lands.
 
 Theorem direct_failed_save_harmless :
   forall ff b v d t, t <> 0 ->
-    let s := direct_save (ff, true) b v d t in
+    let s := direct_save (ff, true, true) b v d t in
     file s = fst d /\ busy s = false /\ (temp s = Some (v, TEmpty) \/ temp s = Some (v, THalf)).
 Proof. exact direct_failed_save_harmless_l. Qed.
 Print Assumptions direct_failed_save_harmless.
 
 Theorem fsave_later_good_save_lands :
-  forall ff ops i v, let s := frun (ff, true) finit (ops ++ [FGood i v]) in
+  forall ff ops i v, let s := frun (ff, true, true) finit (ops ++ [FGood i v]) in
     fbusy s = false /\ fst (if i =? 0 then fd0 s else fd1 s) = Some (v, TFull).
 Proof. exact fsave_later_good_save_lands_l. Qed.
 Print Assumptions fsave_later_good_save_lands.
+
+(* 6. SEVERAL data managers (machine_vars, audits, earnings, high_scores: one writer thread each) share the
+      class-level flag FileManager.is_busy, which is tested (`while FileManager.is_busy`) and set
+      (`FileManager.is_busy = True`) without a lock.  Model Two.v: two threads of the machine above, the
+      schedule interleaves them at every hand-over point (tie: suite "two", two real writer threads).
+      The race is real (two_race_witness: both threads inside FileManager.save, flag down while one is
+      still writing) and harmless for the property, because every manager writes its own temp file: *)
+Theorem two_never_torn :
+  forall (c : cfg) (ia ib : bool) (ops : list op2),
+    let s := run2 c (init2 ia ib) ops in
+    (forall v t, file (ta s) = Some (v, t) -> t = TFull /\ (In v (saved (opsA ops)) \/ (ia = true /\ v = 100))) /\
+    (forall v t, file (tb s) = Some (v, t) -> t = TFull /\ (In v (saved (opsB ops)) \/ (ib = true /\ v = 100))).
+Proof. exact two_never_torn_l. Qed.
+Print Assumptions two_never_torn.
+
+(* every manager's last save is on disk once its thread has ended after a clean shutdown, for every
+   interleaving of the two threads *)
+Theorem two_clean_shutdown_durable :
+  forall (fb fc ia ib : bool) (ops : list op2),
+    clean2_from false ops = true ->
+    let s := run2 (true, fb, fc) (init2 ia ib) ops in
+    (forall v, last_saved (opsA ops) = Some v -> pc (ta s) = PDone -> file (ta s) = Some (v, TFull)) /\
+    (forall v, last_saved (opsB ops) = Some v -> pc (tb s) = PDone -> file (tb s) = Some (v, TFull)).
+Proof. exact two_clean_shutdown_durable_l. Qed.
+Print Assumptions two_clean_shutdown_durable.
+
+(* a failed write / failed snapshot of one manager does not block the other: after ANY history of the
+   pair (errors in either thread included) that has neither crashed nor been shut down, a new save to
+   A is complete on disk after at most 24 fault-free rounds in which the two threads take turns, and
+   stays there.  (Fairness is needed: a thread that is never scheduled while the flag is down waits
+   for ever; the real threads sleep 0.2 s / >= 1 s.) *)
+Theorem two_failed_write_not_sticky :
+  forall (ff ia ib : bool) (ops : list op2) (v : Z) (k : nat),
+    let s := run2 (ff, true, true) (init2 ia ib) ops in
+    crashed (ta s) = false -> stopper (ta s) = false ->
+    settledA v (run2 (ff, true, true) s (OA (Save v) :: rounds (WINDOW + k))).
+Proof. exact two_failed_write_not_sticky_l. Qed.
+Print Assumptions two_failed_write_not_sticky.
+
+Theorem two_busy_only_while_writing :
+  forall (ff ia ib : bool) (ops : list op2),
+    let s := run2 (ff, true, true) (init2 ia ib) ops in
+    busy (ta s) = true -> io_point (pc (ta s)) || io_point (pc (tb s)) = true.
+Proof. exact two_busy_only_while_writing_l. Qed.
+Print Assumptions two_busy_only_while_writing.
+
+Theorem two_race_witness :
+  let s := run2 (true, true, true) (init2 false false) (firstn 12 ops_race) in
+  let s' := run2 (true, true, true) (init2 false false) ops_race in
+  io_point (pc (ta s)) = true /\ io_point (pc (tb s)) = true /\
+  busy (ta s') = false /\ io_point (pc (tb s')) = true /\ file (ta s') = Some (1, TFull).
+Proof. exact two_race_witness_l. Qed.
+Print Assumptions two_race_witness.
+
+(* 7. Crash points at the level of os calls (Crash.v part 1).  A save is a sequence of calls on the
+      directory; a crash can fall after any prefix.  General criterion: if the only calls that touch
+      the data file are renames of a COMPLETE file onto it, then after EVERY prefix the data file is
+      what it was or a complete version. *)
+Theorem calls_safe_every_crash_point :
+  forall (cs : list call) (d : dir) (k : nat),
+    calls_safe d cs = true -> file_ok_after d (firstn k cs).
+Proof. exact calls_safe_prefix_l. Qed.
+Print Assumptions calls_safe_every_crash_point.
+
+(* the calls FileManager.save performs satisfy it, whatever is in the directory ... *)
+Theorem save_calls_safe : forall d v, calls_safe d (save_calls v) = true.
+Proof. exact save_calls_safe_l. Qed.
+Print Assumptions save_calls_safe.
+
+(* ... and they are what the pc machine does between POpen and the end of PReplace *)
+Theorem machine_performs_save_calls :
+  forall c s k, pc s = POpen -> crashed s = false -> (k <= 4)%nat ->
+    let s' := run c s (ticks k) in
+    file s' = after (dir_of s) (firstn k (save_calls (local s))) NFile /\
+    temp s' = after (dir_of s) (firstn k (save_calls (local s))) NTemp.
+Proof. exact machine_performs_save_calls_l. Qed.
+Print Assumptions machine_performs_save_calls.
+
+(* any extra rename / remove between the temp write and the final replace, or writing in place, is a
+   violation at some crash point (the data file vanishes / is half written) *)
+Theorem rotation_refuted :
+  exists d v k, d NFile = Some (1, TFull) /\ after d (firstn k (rotation_calls v)) NFile = None /\
+                calls_safe d (rotation_calls v) = false.
+Proof. exact rotation_refuted_l. Qed.
+Print Assumptions rotation_refuted.
+
+Theorem remove_first_refuted :
+  exists d v k, d NFile = Some (1, TFull) /\ after d (firstn k (remove_first_calls v)) NFile = None /\
+                calls_safe d (remove_first_calls v) = false.
+Proof. exact remove_first_refuted_l. Qed.
+Print Assumptions remove_first_refuted.
+
+Theorem in_place_refuted :
+  exists d v k, d NFile = Some (1, TFull) /\ after d (firstn k (in_place_calls v)) NFile = Some (v, THalf) /\
+                calls_safe d (in_place_calls v) = false.
+Proof. exact in_place_refuted_l. Qed.
+Print Assumptions in_place_refuted.
+
+(* 8. Power loss (Crash.v part 2; MODELLED ASSUMPTION, not tied to the code): with ordered write-back
+      the durable data file - what the next boot sees after a power cut at any point - is a complete
+      saved version; with unordered write-back (rename durable before the data) it can be empty.
+      The code does not fsync. *)
+Theorem power_loss_never_torn_ordered :
+  forall c ifile itemp ops v t,
+    ordered ops = true ->
+    let s := prun c (pinit ifile itemp) ops in
+    (dfile s = Some (v, t) -> t = TFull /\ (In v (psaved ops) \/ (ifile = true /\ v = 100))) /\
+    (file (vol s) = Some (v, t) -> t = TFull /\ (In v (psaved ops) \/ (ifile = true /\ v = 100))).
+Proof. exact power_loss_never_torn_ordered_l. Qed.
+Print Assumptions power_loss_never_torn_ordered.
+
+Theorem power_loss_torn_refuted_unordered :
+  exists ops, file (vol (prun (true, true, true) (pinit false 0) ops)) = Some (1, TEmpty) /\
+              crashed (vol (prun (true, true, true) (pinit false 0) ops)) = true.
+Proof. exact power_loss_torn_refuted_unordered_l. Qed.
+Print Assumptions power_loss_torn_refuted_unordered.
+
+(* 9. The snapshot (Copy.v; tie: suite "snap").  The writer thread copies the live dict cell by cell while
+      the main thread may assign cells.  Guaranteed: every cell of what is written held that value at some
+      instant of the copy.  Without interference the snapshot is the dict.  NOT guaranteed: that the
+      snapshot as a whole is a state the dict ever was in (known finding snapshot-mixes-versions). *)
+Theorem snapshot_cellwise :
+  forall l ops j x, nth_error (snap (crun (mkc l []) ops)) j = Some x ->
+    exists pre post, ops = pre ++ post /\ nth_error (live (crun (mkc l []) pre)) j = Some x.
+Proof. exact snapshot_cellwise_l. Qed.
+Print Assumptions snapshot_cellwise.
+
+Theorem snapshot_exact_without_interference :
+  forall l, snap (crun (mkc l []) (repeat CCopy (length l))) = l.
+Proof. exact snapshot_exact_without_interference_l. Qed.
+Print Assumptions snapshot_exact_without_interference.
+
+Theorem snapshot_consistent_refuted :
+  exists l ops, snap (crun (mkc l []) ops) = [1; 2] /\ length (snap (crun (mkc l []) ops)) = length l /\
+                forall pre post, ops = pre ++ post -> live (crun (mkc l []) pre) <> snap (crun (mkc l []) ops).
+Proof. exact snapshot_mixed_refuted_l. Qed.
+Print Assumptions snapshot_consistent_refuted.
